@@ -16,7 +16,7 @@ import shlex
 import shutil
 import tempfile
 
-from .. import cbi, core, runner
+from .. import cbi, core, runner, trace_cfg
 
 CFG = """SPECIFICATION Spec
 CONSTANTS
@@ -79,7 +79,9 @@ def check_chunk(args):
             cc = compilers[ci % len(compilers)]
             stats["evals"] += 1
             try:
-                confs = config.ArgumentParser(cc).parse_args(list(argv))
+                # every 7th vector is also recorded (hook event ParseArgs) for validation by Trace_Cfg.tla
+                with cbi.tracing(os.path.join(d, "pa.ndjson") if ci % 7 == 0 else None):
+                    confs = config.ArgumentParser(cc).parse_args(list(argv))
                 dflt = [c for c in confs if c.pass_name == "default"]
                 got = (dflt[0].defines, dflt[0].include_paths, dflt[0].include_files) if dflt else None
             except BaseException as e:  # noqa
@@ -128,6 +130,9 @@ def check_chunk(args):
                         (list(res[0][0]), list(res[0][1]), list(res[0][2])) != wantdb:
                     fails.append(dict(layer="G", tags=sorted(tg | {"database"}), symptom="database-entry-differs",
                                       detail=f"{full}: arguments-> {res[0]} command-> {res[1]} backslash-escaped command-> {res[2]} reference {wantdb}", case=case))
+        pa = os.path.join(d, "pa.ndjson")
+        if os.path.exists(pa):
+            stats["cfg_events"] = trace_cfg.load_events(pa, "c11", limit=80)
         return fails, stats
     finally:
         shutil.rmtree(d, ignore_errors=True)
@@ -176,13 +181,18 @@ def run(ctx):
     work = ctx.scratch()
     comps = ["gcc", "clang", "icx", "nvcc", "g++", "some-unknown-cc"]
     jobs = [(c, work, comps) for c in runner.chunks(allc, runner.NCPU * 3)]
+    events = []
     for lst in runner.pmap(_jobs, jobs, chunk=1):
         for fails, stats in lst:
             ctx.cov["evaluations"] += stats["evals"]
             ctx.cov["distinct_nontrivial"] += stats["nontrivial"]
             ctx.cov["illformed_excluded"] = ctx.cov.get("illformed_excluded", 0) + stats["ill"]
+            events.extend(stats.get("cfg_events", []))
             for f in fails:
                 ctx.fail(f["layer"], f["tags"], f["symptom"], f["detail"], f["case"])
+    # V: the recorded parse_args executions, judged by Trace_Cfg.tla (ArgvTok + CompilerCfg.Parse on the
+    # built-in compiler definition that was in effect) - a second, independently written reference
+    trace_cfg.validate(ctx, events, tag="C11cfg")
 
 
 def replay(ctx, path):
